@@ -37,14 +37,6 @@ Proof.
   eapply site_instance_sound; eauto. eapply gen_site_safe; eauto.
 Qed.
 
-Lemma lookup_gen_in : forall sid np site, lookup_gen sid = Some (np, site) -> In (sid, (np, site)) gen_site_table.
-Proof.
-  intros sid np site H. unfold lookup_gen in H.
-  destruct (find (fun e => Z.eqb (fst e) sid) gen_site_table) as [e|] eqn:E; [|discriminate].
-  inversion H; subst; clear H. apply find_some in E. destruct E as [Hin Heq]. apply Z.eqb_eq in Heq.
-  destruct e as [z [n q]]. simpl in *. subst. exact Hin.
-Qed.
-
 (* ---------------------------------------------------------------- model agrees => property holds *)
 (* for call cases of the genotype encodings (site 14) the model is the executable `genotype_prog(_fixed)`; all other
    cases: agreement with the model implies the property on that case.  For `site` cases this is the translator tie:
@@ -62,9 +54,7 @@ Proof.
     destruct (zlist_eqb (k_log_before c) (k_log_after c)); simpl in *; try discriminate. exact H.
   - destruct (Z.eqb (k_kind c) 1) eqn:E1; auto.
     destruct (Z.eqb (k_kind c) 2) eqn:E2; auto.
-    destruct (lookup_gen (k_site c)) as [[n p]|] eqn:El; [|discriminate].
-    apply andb_true_iff in H. destruct H as [H1 H2]. apply Nat.eqb_eq in H1. apply prog_eqb_eq in H2.
-    subst. eapply gen_site_safe. eapply lookup_gen_in; eauto.
+    apply andb_true_iff in H. destruct H as [H1 H2]. apply prog_eqb_eq in H1. rewrite H1. exact H2.
 Qed.
 
 (* history: with the model of the unrepaired code (fix1_applied = false) the exclusion was needed — a genotype
@@ -77,7 +67,7 @@ Proof.
   exists {| k_kind := 0; k_site := 14; k_cow := false; k_target := 0;
             k_before := [[48; 47; 49; 10]%Z]; k_after := [[48; 47; 49; 9]%Z];
             k_log_before := [1%Z]; k_log_after := [2%Z]; k_res1 := []; k_res2 := [];
-            k_w_ref := []; k_w_got := []; k_np := 0; k_prog := []; k_flags := [] |}.
+            k_w_ref := []; k_w_got := []; k_np := 0; k_prog := []; k_prog2 := []; k_flags := [] |}.
   split; [reflexivity|]. split.
   - unfold model_ok, model_call_ok, model_prog_sel. rewrite Hf. vm_compute. reflexivity.
   - vm_compute. reflexivity.
